@@ -27,6 +27,7 @@ func init() {
 
 func runC44(c *eng.Ctx) {
 	defer runC44Restore(c)
+	defer runC44Pending(c)
 	p := c.P
 	A := "rules:AlertingRule"
 	f := c.Fn(A + ".Eval")
